@@ -54,12 +54,14 @@ static int scale_mode(const char * file) {
     while (in >> cap >> fill) {
         vsched::reset();
         Fixture * f = new Fixture;
-        f->q.setBufferSize((uint32_t) cap);
+        // fill <= cap: capacity set first.  fill > cap: the capacity is lowered below the fill level afterwards
+        if (fill <= cap) f->q.setBufferSize((uint32_t) cap);
         for (long i = 1; i <= fill; i++) {
             ObjectHeaderBase * o = new ObjectHeaderBase(1, ObjectType::UNKNOWN);
             o->objectSize = (uint32_t) i;
             f->q.write(o);
         }
+        if (fill > cap) f->q.setBufferSize((uint32_t) cap);
         bool wrote = false;
         int P = vsched::spawn([f, fill, &wrote] {
             ObjectHeaderBase * o = new ObjectHeaderBase(1, ObjectType::UNKNOWN);
